@@ -56,7 +56,9 @@ CHECKS['C03'] = dict(
          'one_call_one_outcome), the discarded counter is the number of discards mod 2^32 (discarded_counter_exact), a '
          'record is refused only when it cannot fit an empty packet or the back end answered full (discard_only_if); for '
          'platforms with one buffer size the first holds along every history with no side condition '
-         '(calls_recorded_or_discarded_always, from the C02 position invariant). Not '
+         '(calls_recorded_or_discarded_always, from the C02 position invariant), and every serialised record begins at or '
+         'after the end of the previous record of its packet (or of the packet context) and ends inside the packet: no '
+         'overlap, call order (records_laid_out_in_order). Not '
          'proved: that the delivered bytes decode to those records in order without overlap (needs the layout round trip '
          'and the packet position invariant; false on the pinned tree in the corners of findings F8/F9). That part is '
          'evaluated on the implementation: every delivered packet is decoded with the parsed real metadata and compared '
@@ -101,13 +103,17 @@ CHECKS['C02'] = dict(
          '(no_store_outside_the_buffer): from barectf_init on a buffer of L bytes, after any sequence of API calls (any '
          'order, misuse included) against any platform script (back-end answers, clock, toggles of is_tracing_enabled '
          'inside any callback, swaps to buffers of L bytes) no store falls outside the buffer, packet_size is the buffer '
-         'size, at is inside the packet and the offsets saved for the closing write-backs are inside the buffer. '
+         'size, at is inside the packet and the offsets saved for the closing write-backs are inside the buffer; stated '
+         'also on the log itself (every_store_inside_the_buffer: every store event has off + n <= L). The same for platforms '
+         'installing buffers of different sizes when the history starts by opening a packet and never disables tracing '
+         '(no_store_outside_the_buffer_any_sizes). '
          'Hypotheses: CfgOK (power-of-two alignments, distinct packet context member names: executable as cfgOKb, '
          'proved sound, evaluated on every real configuration the check uses), the property precondition (buffer >= '
          'header + context), the uint32_t no-wrap conditions (buffers below 512 MiB, records whose size does not wrap). '
          'Also proved: every serialisation primitive logs exactly the bytes it may modify; size pass = serialise advance '
-         'for every root; no shift amount reaches its operand width. Not proved: platforms installing buffers of '
-         'different sizes (the position invariant is false after a swap that follows an ignored closing: finding F9) - '
+         'for every root; no shift amount reaches its operand width. Not proved because false on the current tree: buffers of '
+         'different sizes combined with disabled tracing (a swap that follows an ignored closing: finding F9) or with '
+         'tracing calls before the first opening - '
          'decided on the implementation by the guard page, the C assertion, crash detection; ASan/UBSan in thorough.',
     note='Trusted: Lean kernel/standard axioms; differential tie; guard page granularity (upper end exact, lower end page). '
          'F11 (2^32-bit wrap) is outside every run (unreplayed) and outside the theorem (hypothesis).',
